@@ -372,6 +372,14 @@ def fam_closures():
     add("callsite-rebound", [Let("h", Fn([], [Ret(S("old"))])), FnStmt("w", [], [Ret(Call("h"))]), P(Call("w")), Let("h", Fn([], [Ret(S("new"))])), P(Call("w")), Ret(I(0))])
     add("callsite-loop-shadow", [FnStmt("k", [], [Ret(I(1))]), Let("r", L()), ForIn("i", L(I(1), I(2), I(3)), [Let("r", Bin("+", Id("r"), L(Call("k")))), If(Bin("==", Id("i"), I(1)), [Var("k", Fn([], [Ret(I(2))]))])]), P(Id("r")), P(Call("k")), Ret(I(0))])
     add("callsite-param-vs-global", [FnStmt("t", [], [Ret(S("global"))]), FnStmt("u", ["t"], [Ret(Call("t"))]), P(Call("u", Fn([], [Ret(S("param1"))]))), P(Call("t")), P(Call("u", Fn([], [Ret(S("param2"))]))), Ret(I(0))])
+    # the same with GO functions bound to the name: a call site evaluated again calls what the name holds NOW
+    add("callsite-go-param", [FnStmt("via", ["f", "x"], [Ret(Call("f", Id("x")))]), P(Call("via", Id("p"), I(1))), P(Call("via", Id("pa"), I(2))), P(Call("via", Id("p"), I(3))),
+                              P(Call("via", Fn(["a"], [Ret(Bin("+", Id("a"), I(10)))]), I(4))), P(Call("via", Id("pa"), I(5))), Ret(I(0))])
+    add("callsite-go-loop", [Let("r", L()), ForIn("f", L(Id("p"), Id("pa"), Id("p")), [Let("r", Bin("+", Id("r"), L(Call("f", I(5)))))]), P(Id("r")), Ret(I(0))])
+    add("callsite-go-rebound", [Let("h", Id("p")), FnStmt("w", [], [Ret(Call("h", I(7)))]), P(Call("w")), Let("h", Id("pa")), P(Call("w")), Let("h", Fn(["a"], [Ret(S("script"))])), P(Call("w")), Let("h", Id("p")), P(Call("w")), Ret(I(0))])
+    add("callsite-go-then-script", [FnStmt("via", ["f"], [Ret(Call("f", I(1)))]), P(Call("via", Id("p"))), P(Call("via", Fn(["a"], [Ret(S("s"))]))), P(Call("via", Id("p"))), Ret(I(0))])
+    add("callsite-go-variadic", [FnStmt("via", ["f"], [Ret(Call("f", I(1), I(2)))]), P(Call("via", Id("pn"))), P(Call("via", Id("pv"))), P(Call("via", Id("pn"))), Ret(I(0))])
+    add("callsite-go-defer", [FnStmt("run", ["cb"], [Defer(Call("cb", I(9))), P(0), Ret(I(0))]), E(Call("run", Id("p"))), E(Call("run", Id("pa"))), E(Call("run", Id("p"))), Ret(I(0))])
     add("callsite-defer-name", [FnStmt("d1", [], [P(1), Ret(I(0))]), FnStmt("d2", [], [P(2), Ret(I(0))]), FnStmt("run", ["cb"], [Defer(Call("cb")), P(0), Ret(I(0))]), E(Call("run", Id("d1"))), E(Call("run", Id("d2"))), E(Call("run", Id("d1"))), Ret(I(0))])
     # a closure made in a nested block of an invocation that has bound nothing yet escapes the block; the invocation binds a name
     # afterwards; the closure must see (and assign) that binding: scopes are linked by position, not by what they hold at the time
